@@ -395,7 +395,9 @@ func (tr *Tr) initArray(st *State, ref string, et types.Type) {
 		name := elemPrefix(et) + lf.suffix
 		h := tr.heapVar(st, name, arr2(lf.sort))
 		zero := fmt.Sprintf("((as const (Array Int %s)) %s)", lf.sort, zeroOf(lf.sort))
-		tr.setHeapVar(st, name, arr2(lf.sort), tr.nameTerm(name, arr2(lf.sort), sStore(h, ref, zero)))
+		sym := tr.nameTerm(name, arr2(lf.sort), sStore(h, ref, zero))
+		tr.stores[sym] = storeRec{base: h, ref: ref, idx: "*", val: zeroOf(lf.sort)}
+		tr.setHeapVar(st, name, arr2(lf.sort), sym)
 	}
 }
 
